@@ -307,3 +307,16 @@ Print Assumptions C13_gen_is_subpath.
 Theorem C13_gen_replace_path : forall cv p f t, gen_replace_path cv p f t = replace_path cv p f t.
 Proof. exact gen_replace_path_eq. Qed.
 Print Assumptions C13_gen_replace_path.
+
+(* ------------------------------------------------------------------ the fold hypothesis is needed *)
+(* without [conv_ok] normalisation is not idempotent: a fold that is not idempotent breaks it.  (On the real
+   code the same happens where str.lower() is not a per-character fold: known finding P-10, U+0130 before ':'.) *)
+Definition normalize_idem_full : Prop := forall cv p d,
+  normalize_path cv (normalize_path cv p d) d = normalize_path cv p d.
+Theorem C13_normalize_idem_nofold_refuted : ~ normalize_idem_full.
+Proof.
+  intros H.
+  specialize (H {| cv_sep := 47; cv_alt := None; cv_cs := false; cv_win := false; cv_fold := N.succ |} (str_of "a") false).
+  vm_compute in H. discriminate.
+Qed.
+Print Assumptions C13_normalize_idem_nofold_refuted.
